@@ -60,6 +60,7 @@ type modTarget struct {
 	ref  *T
 	path []pathEl // non-empty: only this part of the object (an embedded struct reached through an interior pointer)
 	cell *Cell    // non-nil: a local variable of the caller (no heap region)
+	all  bool     // every array (heap: every object) of this element type: allof(T)
 }
 
 type frame struct {
@@ -684,6 +685,13 @@ func (x *executor) modTargetsOf(ev *evaluator, e Expr) []modTarget {
 }
 
 func (x *executor) modTargetOf(ev *evaluator, e Expr) modTarget {
+	// allof(T): every array with element type T (for recursive structures whose nested slices cannot be named)
+	if call, ok := e.(*ECall); ok {
+		if id, ok := call.Fun.(*EIdent); ok && id.Name == "allof" && len(call.Args) == 1 {
+			t := ev.resolveType(exprString(call.Args[0]))
+			return modTarget{heap: false, typ: t, sort: heapKey(t), all: true, ref: refConst(0)}
+		}
+	}
 	// pointee(v): the object an interface value v points to (its dynamic type must be a pointer known at the call)
 	if call, ok := e.(*ECall); ok {
 		if id, ok := call.Fun.(*EIdent); ok && id.Name == "pointee" && len(call.Args) == 1 {
@@ -694,6 +702,10 @@ func (x *executor) modTargetOf(ev *evaluator, e Expr) modTarget {
 					if _, ok := x.c.ifaceTypes[k].Underlying().(*types.Pointer); ok {
 						pp := x.c.ptrOf(Val{t: u.args[0], typ: x.c.ifaceTypes[k]})
 						return modTarget{heap: true, typ: pp.base, sort: heapKey(pp.base), ref: pp.ref, path: pp.path}
+					}
+					if sl, ok := x.c.ifaceTypes[k].Underlying().(*types.Slice); ok {
+						// an interface holding a slice (e.g. sort.Interface over a named slice type): its backing array
+						return modTarget{heap: false, typ: sl.Elem(), sort: heapKey(sl.Elem()), ref: x.c.slRef(u.args[0])}
 					}
 				}
 			}
@@ -1070,6 +1082,20 @@ func (x *executor) havocTarget(st *state, mt modTarget) {
 		nv := c.d.fresh("hv_"+mt.sort, c.sortOf(mt.typ))
 		st.assume(c.valueWF(nv, mt.typ))
 		c.setHeap(st, mt.typ, mkStore(h, mt.ref, nv))
+		return
+	}
+	if mt.all {
+		// every array of this element type is unknown afterwards
+		old := c.arrOf(st, mt.typ)
+		nh := c.d.fresh("Aall_"+mt.sort, old.sort)
+		qcounter++
+		r := atom(fmt.Sprintf("r!%d", qcounter), "Int")
+		i := atom(fmt.Sprintf("i!%d", qcounter), c.intSort())
+		wf := c.valueWF(app("select", c.sortOf(mt.typ), app("select", arraySort(c.intSort(), c.sortOf(mt.typ)), nh, r), i), mt.typ)
+		if !isTrue(wf) {
+			st.assume(app(fmt.Sprintf("forall ((%s Int) (%s %s))", r.op, i.op, i.sort), "Bool", wf))
+		}
+		st.arrs[heapKey(mt.typ)] = nh
 		return
 	}
 	a := c.arrOf(st, mt.typ)
